@@ -50,7 +50,7 @@ func (p *Pipe) sharedBody() (lets, expr string) {
 	case 1:
 		return "", "s.accept(x->x%2=0).merge(s.accept(x->x%2!=0), (p,q)->p<q)"
 	case 2:
-		return "", "numbers(40).map(i->s.mapReduce(cost(" + strconv.Itoa(sharedCostID) + ",i),(u,x)->(u*31+x)%1000003))"
+		return "", "numbers(24).map(i->s.mapReduce(cost(" + strconv.Itoa(sharedCostID) + ",i),(u,x)->(u*31+x)%1000003))"
 	case 3:
 		return "", "s.map(x->x+1).merge(s, (p,q)->p<q)"
 	case 4:
@@ -59,8 +59,15 @@ func (p *Pipe) sharedBody() (lets, expr string) {
 		return "let r=numbers(3).multiUse({p:l->l.sum()+s.reduce((u,v)->(u+v)%1000003), q:l->l.size()+s.map(x->x+1).reduce((u,v)->(u*3+v)%1000003)}); ", "[r.p,r.q,r.p+r.q]"
 	case 5:
 		return "", "(s.map(x->x*2)+s.accept(x->x%3=0))"
-	default:
+	case 6:
 		return "", "s.top(6).cross(s, (p,q)->p*7+q)"
+	// the same list is materialised (size, index, reverse, eval, =) by several goroutines at once
+	case 7:
+		return "let r=numbers(3).multiUse({p:l->l.sum()+s.size(), q:l->l.size()+s.reverse().first()+s[0], t:l->l.first()+s.eval().last()}); ", "[r.p,r.q,r.t]"
+	case 8:
+		return "", "numbers(24).map(i->cost(" + strconv.Itoa(sharedCostID) + ",i)+(if i<14 then i else s.size()*1000+s[i%2]+i))"
+	default:
+		return "", "numbers(5).map(i->s.size()+i).merge(numbers(5).map(i->s[1]+s.reverse().last()+i), (p,q)->p<q)"
 	}
 }
 
@@ -165,6 +172,11 @@ func renderStage(prev string, st Stage, s int, p *Pipe) (string, bool) {
 		}
 		return prev + ".number((n,x)->" + w("x") + "+n)", true
 	case "compact":
+		if st.Ident {
+			// runs of st.N consecutive values count as equal: the first item of every run is delivered
+			R := strconv.Itoa(max(st.N, 2))
+			return prev + ".compact((p,q)->(p-p%" + R + ")=(q-q%" + R + "))", true
+		}
 		return prev + ".compact((p,q)->" + w("p") + "%3=q%3)", true
 	case "cross":
 		if st.Ident {
